@@ -189,7 +189,8 @@ func c19Space(L int) *core.Space {
 			}
 			fail := func(sig string, d c19Decl, det map[string]interface{}) {
 				r.Outcome(sig)
-				coreS := fmt.Sprintf("%s | %s", sig, lineAt(text, rng(text, d.sp)))
+				// the core names the whole (short) file: the same declaration line failing in another file is another finding
+				coreS := fmt.Sprintf("%s | %s | in %q", sig, lineAt(text, rng(text, d.sp)), text)
 				det["failure_core"] = coreS
 				det["m.lua"] = text
 				det["declaration"] = fmt.Sprintf("%s %s at %s", d.kind, d.name, rng(text, d.sp))
@@ -198,7 +199,7 @@ func c19Space(L int) *core.Space {
 			for _, f := range flat {
 				if !rangeWellFormed(text, f.Range) || !rangeWellFormed(text, f.SelectionRange) {
 					r.Outcome("malformed-range")
-					coreS := fmt.Sprintf("outline-entry-range-outside-document | %s %s", f.Name, f.Range)
+					coreS := fmt.Sprintf("outline-entry-range-outside-document | %s %s | in %q", f.Name, f.Range, text)
 					r.Fail(name, i, "outline-entry-range-outside-document", coreS, map[string]interface{}{"failure_core": coreS, "m.lua": text, "entry": f.Name, "range": f.Range.String()})
 				}
 			}
@@ -284,7 +285,7 @@ func c19Space(L int) *core.Space {
 						}
 						if wasOK && !found {
 							sig := "outline-does-not-follow-unsaved-edit:" + d.kind
-							coreS := fmt.Sprintf("%s | %s", sig, lineAt(buf, dr))
+							coreS := fmt.Sprintf("%s | %s | in %q", sig, lineAt(buf, dr), buf)
 							r.Outcome(sig)
 							r.Fail(name, i, sig, coreS, map[string]interface{}{"failure_core": coreS, "buffer": buf, "declaration": fmt.Sprintf("%s %s at %s", d.kind, d.name, dr)})
 							break
